@@ -607,6 +607,15 @@ def rk_interpreted(ctx):
                             specs.append((lay, sn, cs, ce1 + 1))
                             if ce1 - cs >= 3 and (ctx.thorough or (cs + ce1) % 3 == 0):
                                 specs.append((lay, sn, cs, ce1 + 1, 1 + (cs + ce1) % 2))
+    # three- and four-exon transcripts (always): CDS made of whole exons and CDS ends one base inside an exon
+    for lay in ([(3, 6), (8, 11), (13, 17)], [(2, 4), (6, 9), (11, 13), (15, 18)]):
+        bounds = sorted({b for blk in lay for b in blk} | {blk[0] + 1 for blk in lay} | {blk[1] - 1 for blk in lay})
+        pos = {p for s_, e in lay for p in range(s_, e)}
+        for sn in ("PLUS", "MINUS"):
+            for cs in bounds:
+                for ce in bounds:
+                    if cs < ce and cs in pos and (ce - 1) in pos:
+                        specs.append((tuple(lay), sn, cs, ce))
     r.floor("C06.RK", "transcripts (layout x strand x CDS placement)", len(specs), 150)
 
     def work(spec):
